@@ -528,6 +528,9 @@ def design_matrices(formula, data, na_action="drop", env=0, extra_namespace=None
 
     env = Environment.capture(env, reference=1)
     env = env.with_outer_namespace(extra_namespace)
+    # The design keeps the bindings as they are now: a later evaluation on new data must not
+    # depend on what the caller does with its variables or its 'extra_namespace' afterwards
+    env = env.snapshot()
 
     description = model_description(formula)
 
